@@ -52,10 +52,10 @@ def decl_specs(tier):
                 fields.append(('n', I(1)))
             fields.append(('x', pos(el, m, arg, sp, ref)))
             fields.append(('z', I(1)))
-            for w in 'abc':
+            for w in 'abcg':
                 if tier == 'quick' and w != 'a' and ename in ('int3', 'seq') and sp == 'lambda':
                     continue
-                K = PKT('K', fields)
+                K = PKT('K', fields) if w != 'g' else PKT('K', fields, generate_for_pack=False, generate_for_unpack=False)
                 if w == 'b':
                     P = PKT('W', [('pre', I(1)), ('body', R(K))])
                 elif w == 'c':
